@@ -4,6 +4,7 @@ import (
 	"fmt"
 	"go/ast"
 	"go/constant"
+	"golibcheck/internal/paths"
 	"go/token"
 	"go/types"
 	"math"
@@ -318,9 +319,23 @@ func (m *Matcher) countAtoms(fr *frame) {
 	if fr.ctx.FI.Decl.Body == nil {
 		return
 	}
-	ast.Inspect(fr.ctx.FI.Decl.Body, func(n ast.Node) bool {
+	var visitNode func(n ast.Node) bool
+	visitNode = func(n ast.Node) bool {
 		var conds []ast.Expr
 		switch v := n.(type) {
+		case *ast.ForStmt:
+			// the extractor unrolls a loop over a few constants: its conditions are those of the
+			// bodies with the constant in place of the induction variable
+			if iv, vals := constInduction(fr.ctx.Info, v); iv != nil {
+				for _, k := range vals {
+					lit := &ast.BasicLit{ValuePos: v.Pos(), Kind: token.INT, Value: fmt.Sprint(k)}
+					fr.ctx.Info.Types[lit] = types.TypeAndValue{Type: iv.Type(), Value: constant.MakeInt64(k)}
+					if cp, ok := paths.Subst(fr.ctx.Info, v.Body, map[types.Object]ast.Expr{iv: lit}).(*ast.BlockStmt); ok {
+						ast.Inspect(cp, visitNode)
+					}
+				}
+				return false
+			}
 		case *ast.IfStmt:
 			conds = append(conds, v.Cond)
 		case *ast.CaseClause:
@@ -378,7 +393,8 @@ func (m *Matcher) countAtoms(fr *frame) {
 			m.eachAtom(c, func(a ast.Expr) { visit(a, 0) })
 		}
 		return true
-	})
+	}
+	ast.Inspect(fr.ctx.FI.Decl.Body, visitNode)
 }
 
 func (m *Matcher) eachAtom(e ast.Expr, f func(ast.Expr)) {
